@@ -135,6 +135,51 @@ def exceeded_implies_bound(test: ast.AST, restarts_src: str, max_src: str) -> Op
     return False
 
 
+def cap_tests(fn, cfg):
+    """Tests that compare the engine's number of consecutive re-submissions with the controller's cap, in any of the equivalent
+    spellings: [(test node, edge label on which a re-submission is ALLOWED, is the boundary the documented strict one, text)].
+    'attempts < cap' (allowed on T), 'attempts >= cap' (allowed on F), 'cap > attempts', 'cap <= attempts', through a local that holds the
+    attempts or the cap, and under 'not'.  'attempts <= cap' / 'attempts > cap' are cap tests too, with the wrong boundary."""
+    def is_attempts(e, d=0):
+        if isinstance(e, ast.Call) and last_attr(e) == "resubmissionAttempts":
+            return True
+        if isinstance(e, ast.Name) and d < 3:
+            vals = match.assigned_value(fn, e.id)
+            return bool(vals) and all(is_attempts(v, d + 1) for v in vals)
+        return False
+
+    def is_cap(e, d=0):
+        if isinstance(e, ast.Attribute) and e.attr == "_max_resubmission_attempts":
+            return True
+        if isinstance(e, ast.Name) and d < 3:
+            vals = match.assigned_value(fn, e.id)
+            return bool(vals) and all(is_cap(v, d + 1) for v in vals)
+        return False
+    out = []
+    for n in cfg.nodes:
+        if n.kind != "test" or n.ast is None:
+            continue
+        t, neg = n.ast, False
+        while isinstance(t, ast.UnaryOp) and isinstance(t.op, ast.Not):
+            t, neg = t.operand, not neg
+        cp = match.compare_parts(t)
+        if not cp:
+            continue
+        l, op, r = cp
+        if is_attempts(l) and is_cap(r):
+            table = {ast.Lt: ("T", True), ast.GtE: ("F", True), ast.LtE: ("T", False), ast.Gt: ("F", False), ast.NotEq: ("T", False), ast.Eq: ("F", False)}
+        elif is_cap(l) and is_attempts(r):
+            table = {ast.Gt: ("T", True), ast.LtE: ("F", True), ast.GtE: ("T", False), ast.Lt: ("F", False), ast.NotEq: ("T", False), ast.Eq: ("F", False)}
+        else:
+            continue
+        hit = table.get(type(op))
+        if hit is None:
+            continue
+        lab, exact = hit
+        out.append((n, match.other(lab) if neg else lab, exact, source.src(n.ast)))
+    return out
+
+
 def _reaches_without(cfg, start, target, gate) -> bool:
     """is target reachable from start on a path that avoids gate"""
     return target.id in cfg.reach([start], blocked=[gate], include_starts=False)
@@ -462,10 +507,13 @@ def run(ctx) -> None:
         isinstance(t, ast.Compare) and isinstance(t.ops[0], ast.In) and isinstance(t.left, ast.Name) and t.left.id == "exitReason"
         and "restartHookOn" in source.src(t.comparators[0]) and "workflowAttributes" in source.src(t.comparators[0])) else None)
     g2a = match.test_nodes(c2, reason_test("SubmissionFailed", "exitReason"))
-    g2b = match.test_nodes(c2, lambda t: "T" if (
-        match.compare_parts(t) and isinstance(match.compare_parts(t)[1], ast.Lt)
-        and isinstance(match.compare_parts(t)[0], ast.Call) and last_attr(match.compare_parts(t)[0]) == "resubmissionAttempts"
-        and source.src(match.compare_parts(t)[2]) == "self._max_resubmission_attempts") else None)
+    caps_ = cap_tests(rc, c2)
+    g2b = [(n, lab) for (n, lab, _exact, _txt) in caps_]
+    for (n, lab, exact, txt) in caps_:
+        ctx.ob("C12.R4-controller-guards", n.ast, exact,
+               "a re-submission is attempted only while the consecutive attempts are strictly below the cap" if exact else
+               "the cap test '%s' lets a re-submission through when the attempts EQUAL the cap: six consecutive re-submissions after failed "
+               "submissions instead of five" % txt, construct="resubmission cap test: attempts < cap")
     g3 = []
     for n in c2.nodes:
         if n.kind == "test" and isinstance(n.ast, ast.Compare) and isinstance(n.ast.ops[0], ast.NotIn) \
